@@ -42,7 +42,9 @@ func main() {
 		"flag order / repetition / delimiter grammar, containers x container directives, values with one container instance at several positions " +
 		"(aliasing) x container letters, integer-range edge values x radix letters x flags x widths around the unpadded length, histories (one context " +
 		"reused over a sequence of values; a history counts once), per-type format maps, radix round trips (plain, and zero / precision / space padded " +
-		"around and beyond the digit count of a 64 bit number, through both dispatches of Integer.new), seeded random"
+		"around and beyond the digit count of a 64 bit number, through both dispatches of Integer.new), PuppetSprintf / PuppetFprintf calls with " +
+		"several directives in one format text (one directive text over different values, different directives, literal text, %%, positional and keyed forms; " +
+		"a call counts once), seeded random"
 	r := &runner{cfg: cfg, res: res, rng: lib.NewRng(cfg.Seed), tagCount: map[string]int{}}
 	r.em = newEmitter(cfg)
 	pcore.Do(func(c px.Context) {
@@ -240,6 +242,21 @@ func (r *runner) replay() {
 			text, got := r.radixPadOne(c, true)
 			fmt.Printf("integer %d under %q => %q; padding spaces trimmed: Integer.new(text, %d) => %s; Integer.new({from => text, radix => %d}) => %s (abs argument: %d)\n",
 				c.N, c.D, text, c.Radix, got[0], c.Radix, got[1], c.Abs)
+			for _, v := range r.res.Violations[before:] {
+				fmt.Printf("  FAILS [%s] %s\n", v.Clause, v.What)
+			}
+			if len(r.res.Violations) == before {
+				fmt.Println("  the direct check accepts this case")
+			}
+		case "sprintf":
+			var c spCase
+			lib.Remarshal(in, &c)
+			before := len(r.res.Violations)
+			o := r.sprintfOne(c, true)
+			fmt.Printf("%s\n  PuppetSprintf => %s\n", c.describe(), o)
+			for _, a := range c.Apps {
+				fmt.Printf("  %s under %s alone => %s\n", a.V, a.S, formatCase(a.V, a.S))
+			}
 			for _, v := range r.res.Violations[before:] {
 				fmt.Printf("  FAILS [%s] %s\n", v.Clause, v.What)
 			}
